@@ -11,7 +11,8 @@ import Driver.Util
   gg genum fmt                               -> clean
   gg gerror methods s | imports s | assert s | build s | run | fmt
   gg gsort  methods   | imports   | assert   | build   | run | fmt
-  gg typeref <kind>                          -> written type reference of a basic trait kind
+  gg <gen> type <T>                          -> ok            (selects the type the next `methods` is about)
+  gg typeref <kind> [<accessor>]             -> written type reference of a basic trait kind
   gg typereflegacy <kind>
 
 `j y t c d` / `s` are `t`/`f`.  Trait kinds: the go/types spelling with `_` for the blank
@@ -50,6 +51,7 @@ def handle (ws : List String) : String :=
   match ws with
   | [_, "run"] => "ok"
   | [_, "fmt"] => "clean"
+  | [_, "type", _] => "ok"
   | "genum" :: "methods" :: rest =>
     match optsOf rest with
     | some (o, traits) =>
@@ -87,7 +89,7 @@ def handle (ws : List String) : String :=
   | ["gsort", "imports"] => show' (sorted (importsGuaranteed gsortEntries noOpts))
   | ["gsort", "assert"] => "sort.Interface"
   | ["gsort", "build"] => "ok"
-  | ["typeref", k] => match kindOf k with
+  | "typeref" :: k :: _ => match kindOf k with
     | some b => render (typeRef b)
     | none => "bad-op"
   | ["typereflegacy", k] => match kindOf k with
